@@ -73,6 +73,9 @@ def generate(rng, tier):
         pe_uinfos = {0: dict(fpreg=None, fpoff=0, ops=[(4, ("alloc", 40))], chain=None, prolog=4)}
         module_pe(s, "MP", pe_lo, pe_lo + 0x10000, pe_lo, 0x140000000, [(0x1000, 0x1040, 0), (0x1100, 0x1180, 0)], pe_uinfos,
                   0x1000, bytes([0x90]) * 0x200)
+        # a PE image whose function table is EMPTY (nothing but leaf functions): it is still a PE image
+        pe0_lo = 0x480000
+        module_pe(s, "MP0", pe0_lo, pe0_lo + 0x10000, pe0_lo, 0x140000000, [], {}, 0x1000, bytes([0x90]) * 0x100)
         # a Mach-O module: addresses its __unwind_info does not cover (before the first entry, after the sentinel)
         import machotruth as mt
         mprog = mt.make_program(rng, arch, 4)
@@ -84,7 +87,7 @@ def generate(rng, tier):
         fd = [dict(start=0x100, len=0x400, rows=[(0, suites.std_row(arch, "frameless", 5))])]
         s.module_dwarf("MF", far_lo, far_lo + (1 << 33), far_lo, 0, ["hdr", "eh", "debug"][rep % 3], fd, rng)
         s.add("new U")
-        for mid in ["MN", "MP", "MM", "MF"] + ["MB%d" % i for i in range(mi)] + ["MG%d" % j for j in range(3)]:
+        for mid in ["MN", "MP", "MP0", "MM", "MF"] + ["MB%d" % i for i in range(mi)] + ["MG%d" % j for j in range(3)]:
             s.add("add U " + mid)
         probes = [("nomodule", a) for a in (0x5000, 0x50, 0xfffff, 0x101000, 0x9999999)]
         probes += [("nodata", 0x100000 + rng.below(0x1000)) for _ in range(3)]
@@ -97,6 +100,7 @@ def generate(rng, tier):
         probes += [(pe_reason, pe_lo + a) for a in (0x10, 0xfff, 0x1040, 0x10ff, 0x1180, 0x5000)]
         if arch == "a64":
             probes += [(pe_reason, pe_lo + 0x1010), (pe_reason, pe_lo + 0x1120)]
+        probes += [(pe_reason, pe0_lo + a) for a in (0x0, 0x1000, 0x1040, 0xffff)]
         probes += [("macho-outside", mm_lo + a) for a in (0x10, 0x800, 0xfff, mprog["end"], mprog["end"] + 0x40)]
         # the first address BEHIND an image belongs to no module (ranges are end-exclusive), whatever the image would
         # have said about it: images with data, with nothing mapped behind them
